@@ -295,16 +295,30 @@ def balanced_chunks(traces, n):
     return [b for b in bins if b]
 
 
-def validate_traces(progs, runs, work, chunks=None, timeout=900, max_events=1200):
-    """TLC trace validation of every recorded polarized run. Returns list of per-chunk results with rejected trace ids."""
+TRACE_CFG_NP = """SPECIFICATION TraceSpec
+CONSTANTS
+  Modes = {"np"}
+  TraceMode = TRUE
+  MaxChans = 1000000
+INVARIANTS NoProtocolError NoSharedTree NoSharedNode
+CHECK_DEADLOCK TRUE
+"""
+
+
+def validate_traces(progs, runs, work, chunks=None, timeout=900, max_events=1200, np=False):
+    """TLC trace validation of every recorded polarized run (np=True: of every non-polarized run, against GritsNPTrace).
+    Returns list of per-chunk results with rejected trace ids."""
     byname = {p["name"]: p for p in progs}
-    names = sorted({r["prog"] for r in runs if r["events"] and r["mode"] in ("async", "sync") and not r["crash"]})
+    modes = ("np",) if np else ("async", "sync")
+    spec, tcfg = ("GritsNPTrace", TRACE_CFG_NP) if np else ("GritsRTTrace", TRACE_CFG)
+    runs = [r for r in runs if r["mode"] in modes]
+    names = sorted({r["prog"] for r in runs if r["events"] and r["mode"] in modes and not r["crash"]})
     corpus = [{"name": n, "prog": byname[n]["dump"], "typed": True, "expect": ["?"]} for n in names]
     idx = {n: i + 1 for i, n in enumerate(names)}
     traces = [{"id": r["id"], "pi": idx[r["prog"]], "mode": r["mode"], "events": r["events"]} for r in runs
-              if r["events"] and r["mode"] in ("async", "sync") and not r["crash"] and not r["late"] and len(r["events"]) <= max_events]
-    skipped_long = sum(1 for r in runs if r["events"] and r["mode"] in ("async", "sync") and len(r["events"]) > max_events)
-    cpath = work.path("corpus_tr.json")
+              if r["events"] and r["mode"] in modes and not r["crash"] and not r["late"] and len(r["events"]) <= max_events]
+    skipped_long = sum(1 for r in runs if r["events"] and r["mode"] in modes and len(r["events"]) > max_events)
+    cpath = work.path("corpus_tr%s.json" % ("_np" if np else ""))
     json.dump(corpus, open(cpath, "w"))
     chunks = chunks or min(vlib.NCPU, max(1, len(traces) // 4))
     parts = balanced_chunks(traces, chunks)
@@ -316,9 +330,9 @@ def validate_traces(progs, runs, work, chunks=None, timeout=900, max_events=1200
         acc, rej, evs = 0, [], 0
         # a rejected trace stops the run: record it, then continue with the traces after it
         while todo:
-            tp = work.path("traces_%d_%d.json" % (k, len(todo)))
+            tp = work.path("traces%s_%d_%d.json" % ("_np" if np else "", k, len(todo)))
             json.dump(todo, open(tp, "w"))
-            r = vlib.tlc("GritsRTTrace", TRACE_CFG, env={"VERIF_CORPUS": cpath, "VERIF_TRACES": tp}, workers=1, timeout=timeout,
+            r = vlib.tlc(spec, tcfg, env={"VERIF_CORPUS": cpath, "VERIF_TRACES": tp}, workers=1, timeout=timeout,
                          work=work, extra=("-difftrace",))
             os.remove(tp)
             if r["ok"]:
@@ -414,10 +428,13 @@ def validate_ownership(runs, work, timeout=900, max_events=6000, selftest=True):
     return res
 
 
-def binding_selftest(progs, runs, work):
+def binding_selftest(progs, runs, work, np=False):
     """the trace spec must reject a trace with one corrupted field and one with a removed event"""
     byname = {p["name"]: p for p in progs}
-    cand = [r for r in runs if r["events"] and r["mode"] == "async" and not r["crash"] and any(e["e"] == "recv" for e in r["events"])]
+    smode = "np" if np else "async"
+    spec, tcfg = ("GritsNPTrace", TRACE_CFG_NP) if np else ("GritsRTTrace", TRACE_CFG)
+    cand = [r for r in runs if r["events"] and r["mode"] == smode and not r["crash"] and not r.get("late") and any(e["e"] == "recv" and not e["ctl"] for e in r["events"])
+            and len(r["events"]) < 400]
     if not cand:
         return {"ran": False}
     r = cand[0]
@@ -426,13 +443,13 @@ def binding_selftest(progs, runs, work):
     json.dump(corpus, open(cpath, "w"))
     out = {"ran": True, "trace": r["id"]}
     evs = json.loads(json.dumps(r["events"]))
-    k = [i for i, e in enumerate(evs) if e["e"] == "recv"][0]
+    k = [i for i, e in enumerate(evs) if e["e"] == "recv" and not e["ctl"]][0]
     variants = {"intact": evs, "corrupt_field": [dict(e, c=[9, 9]) if i == k else e for i, e in enumerate(evs)],
                 "removed_event": evs[:k] + evs[k + 1:]}
     for name, ev in variants.items():
         tp = work.path("traces_self_%s.json" % name)
-        json.dump([{"id": name, "pi": 1, "mode": "async", "events": ev}], open(tp, "w"))
-        rr = vlib.tlc("GritsRTTrace", TRACE_CFG, env={"VERIF_CORPUS": cpath, "VERIF_TRACES": tp}, workers=1, timeout=300, work=work)
+        json.dump([{"id": name, "pi": 1, "mode": smode, "events": ev}], open(tp, "w"))
+        rr = vlib.tlc(spec, tcfg, env={"VERIF_CORPUS": cpath, "VERIF_TRACES": tp}, workers=1, timeout=300, work=work)
         out[name] = "accepted" if rr["ok"] else ("rejected" if rr["deadlock"] or rr["violated"] else "error")
     out["ok"] = out["intact"] == "accepted" and out["corrupt_field"] == "rejected" and out["removed_event"] == "rejected"
     return out
@@ -555,11 +572,14 @@ def _campaign(tier, seed, extra_progs):
         tm["validate"] = time.time() - t1; t1 = time.time()
         val["selftest"] = binding_selftest(progs, runs, work)
         tm["selftest"] = time.time() - t1; t1 = time.time()
+        valnp = validate_traces(progs, vruns, work, max_events=1200 if tier == "quick" else 5000, np=True)
+        valnp["selftest"] = binding_selftest(progs, runs, work, np=True)
+        tm["validate_np"] = time.time() - t1; t1 = time.time()
         own = validate_ownership(vruns, work)
         tm["ownership"] = time.time() - t1; t1 = time.time()
         rep = replay_stage(progs, [p["name"] for p in small], work, tier, seed)
         tm["replay"] = time.time() - t1
-        rejq = {x["id"] for x in val["rejected"] if x.get("event") and x["event"].get("e") == "quiesce"}
+        rejq = {x["id"] for x in val["rejected"] + valnp["rejected"] if x.get("event") and x["event"].get("e") == "quiesce"}
         for r in runs:
             r["premature"] = bool(r["events"]) and (r["id"] in rejq or premature_quiescence(r["events"], r["mode"]))
             r["nevents"] = len(r["events"])
@@ -578,7 +598,7 @@ def _campaign(tier, seed, extra_progs):
         return {"tier": tier, "seed": seed,
                 "progs": [{k: p.get(k) for k in ("name", "src", "fe", "accepted", "closed", "runnable", "text", "ast", "scheme", "wide", "ids", "mutation")} | {
                     "cfree": contraction_free(p["dump"]) if p.get("dump") else None, "size": size.get(p["name"], 0)} for p in progs],
-                "runs": runs, "nonterminating": [p["name"] for p in progs if p["runnable"] and not p.get("terminates")], "exhaustive": exh, "small": [p["name"] for p in small], "validation": val, "expect": expect,
+                "runs": runs, "nonterminating": [p["name"] for p in progs if p["runnable"] and not p.get("terminates")], "exhaustive": exh, "small": [p["name"] for p in small], "validation": val, "validation_np": valnp, "expect": expect,
                 "matrix": [list(c) for c in cfgs], "timing": tm, "ownership": own, "replay": rep, "exhaustive_np": exhnp, "sax": saxexp, "sax_confluence": saxconf, "sax_orders": saxval}
 
 
